@@ -27,7 +27,7 @@ func init() {
 				"a value implementing error (Template.recover does e.(error)). (C02.errs) no error returned to parser code is dropped. (C02.eof) every lexer loop consumes input on each round and has " +
 				"an exit for end of input. (C02.struct) a missing {{end}} (EOF inside itemList) and a surplus {{end}}/{{else}}/{{content}} at top level reach a no-return error, unexpected() " +
 				"reports late extends/import, and action() accepts neither. (C02.drain) Set.parse defers Template.recover before the lexer goroutine starts, recover drains the lexer before dropping " +
-				"it, the goroutine closes its channel on every exit, and a state function only ends the scan through errorf or after emitting EOF.",
+				"it, the goroutine closes its channel on every exit, and a state function only ends the scan through errorf or after emitting EOF. (C02.index, continued) the node constructors (constructors.go) are covered too; the named non-emptiness invariants cover index 0 only.",
 			NotDecided:  "absence of other runtime panics (index/slice arithmetic in lexText/lexLeftDelim/lexRightDelim); termination across state transitions; unbounded recursion on cyclic extends; error message contents.",
 			Assumptions: []string{"character-class predicates (isSpace, isAlphaNumeric, strings.IndexRune(valid, r) >= 0) are false for eof (-1)"},
 			Trusted:     commonTrusted,
@@ -45,7 +45,7 @@ func init() {
 			{Name: "number syntax error ignored", File: "parse.go", Old: "\t\tnumber, err := t.newNumber(token.pos, token.val, token.typ)\n\t\tif err != nil {\n\t\t\tt.error(err)\n\t\t}\n\t\treturn number", New: "\t\tnumber, _ := t.newNumber(token.pos, token.val, token.typ)\n\t\treturn number", Rule: "C02."},
 			{Name: "unterminated raw string loops forever", File: "lex.go", Old: "\t\tswitch l.next() {\n\t\tcase eof:\n\t\t\treturn l.errorf(\"unterminated raw quoted string\")\n\t\tcase '`':\n\t\t\tbreak Loop\n\t\t}", New: "\t\tswitch l.next() {\n\t\tcase '`':\n\t\t\tbreak Loop\n\t\t}", Rule: "C02.eof"},
 			{Name: "missing {{end}} silently accepted", File: "parse.go", Old: "\t\tlist.append(n)\n\t}\n\tt.errorf(\"unexpected EOF\")\n\treturn\n}", New: "\t\tlist.append(n)\n\t}\n\treturn\n}", Rule: "C02.struct"},
-			{Name: "surplus {{end}} silently accepted", File: "parse.go", Old: "\t\tcase nodeEnd, nodeElse, nodeContent:\n\t\t\tt.errorf(\"unexpected %s\", n)\n\t\tdefault:", New: "\t\tcase nodeEnd, nodeElse, nodeContent:\n\t\tdefault:", Rule: "C02.struct"},
+			{Name: "surplus {{end}} silently accepted", File: "parse.go", Old: "\t\tcase nodeEnd, nodeElse, nodeContent, nodeCatch:\n\t\t\tt.errorf(\"unexpected %s\", n)\n\t\tdefault:", New: "\t\tcase nodeEnd, nodeElse, nodeContent, nodeCatch:\n\t\tdefault:", Rule: "C02.struct"},
 			{Name: "lexer goroutine not drained on a parse error", File: "parse.go", Old: "\t\tif t != nil {\n\t\t\tt.lex.drain()\n\t\t\tt.stopParse()\n\t\t}", New: "\t\tif t != nil {\n\t\t\tt.stopParse()\n\t\t}", Rule: "C02.drain"},
 			{Name: "recover deferred after the lexer was started", File: "parse.go", Old: "\tdefer t.recover(&err)\n\n\tlexer := lex(name, text, false)\n\tlexer.setDelimiters(s.leftDelim, s.rightDelim)\n\tlexer.setCommentDelimiters(s.leftComment, s.rightComment)\n\tlexer.run()\n", New: "\tlexer := lex(name, text, false)\n\tlexer.setDelimiters(s.leftDelim, s.rightDelim)\n\tlexer.setCommentDelimiters(s.leftComment, s.rightComment)\n\tlexer.run()\n\tdefer t.recover(&err)\n", Rule: "C02.drain"},
 			{Name: "scan ends without EOF token", File: "lex.go", Old: "\tif l.pos > l.start {\n\t\tl.emit(itemText)\n\t}\n\tl.emit(itemEOF)\n\treturn nil\n}", New: "\tif l.pos > l.start {\n\t\tl.emit(itemText)\n\t\tl.emit(itemEOF)\n\t}\n\treturn nil\n}", Rule: "C02.drain"},
@@ -1126,10 +1126,10 @@ func c02drain(c *an.Ctx) {
 // len(x) == n with n > k, x != "" for k = 0).  Exceptions are single named operands whose
 // non-emptiness is an invariant established elsewhere, each with its reason.
 var indexInvariants = map[string]string{
-	"lexer.leftDelim":    "set only from non-empty values (constructor default; setDelimiters stores a parameter only under param != \"\", C03.delims)",
-	"lexer.leftComment":  "set only from non-empty values (constructor default; setCommentDelimiters stores a parameter only under param != \"\", C03.delims)",
+	"lexer.leftDelim":            "set only from non-empty values (constructor default; setDelimiters stores a parameter only under param != \"\", C03.delims)",
+	"lexer.leftComment":          "set only from non-empty values (constructor default; setCommentDelimiters stores a parameter only under param != \"\", C03.delims)",
 	"(*Template).newNumber/text": "newNumber receives the text of a number or character-constant token, which the lexer emits only after consuming at least its first character (lexNumber / lexChar)",
-	"lexIdentifier/word": "lexIdentifier is entered only with an alphanumeric rune pending (lexInsideAction backs up over it), so input[start:pos] holds at least that rune",
+	"lexIdentifier/word":         "lexIdentifier is entered only with an alphanumeric rune pending (lexInsideAction backs up over it), so input[start:pos] holds at least that rune",
 }
 
 func c02index(c *an.Ctx) {
